@@ -372,6 +372,14 @@ def run_case(case, ctx):
                 _try(lambda: fn(xb, xa, out_like=Fxp(None, sreg, nreg, 0, overflow='wrap', rounding=r)))
             reg = Fxp(None, sreg, nreg, 0, overflow='wrap')
             _try(lambda: reg.equal(xa * xb))
+        # short unsigned operands subtracted / added into registers of 64+ bits
+        if wide:
+            ua = Fxp(rng.randint(0, 255), False, 8, 0, raw=True)
+            ub = Fxp(rng.randint(0, 255), False, 8, rng.choice([0, 2]), raw=True)
+            for sreg_ in (True, False):
+                for fn in (fm.sub, fm.add):
+                    _try(lambda: fn(ua, ub, out=Fxp(None, sreg_, n, rng.choice([0, 4]), overflow='wrap')))
+                    _try(lambda: fn(Fxp([3, 200], False, 8, 0), Fxp([5, 100], False, 8, 0), out_like=Fxp(None, sreg_, n, 0, overflow='wrap')))
         # accumulate in place
         acc = mk(a, op_sizing='same')
         for _ in range(3):
